@@ -61,7 +61,7 @@ fn hist_direct(ctx: &Ctx, res: &mut PartResult, maxlen: usize) {
             let mut idx = vec![0usize; len];
             loop {
                 if ctx.over_budget() {
-                    res.cap_hit = Some("wall budget".into());
+                    res.cap_hit = Some("budget (cpu time of the part)".into());
                     res.exhaustive = false;
                     break;
                 }
@@ -193,7 +193,7 @@ fn hist_render(ctx: &Ctx, res: &mut PartResult, maxlen: usize) {
             };
             let (_, complete) = vseq::for_each_seq(vals.len(), len, &mut run, &|| ctx.over_budget());
             if !complete {
-                res.cap_hit = Some("wall budget".into());
+                res.cap_hit = Some("budget (cpu time of the part)".into());
                 res.exhaustive = false;
             }
         }
@@ -237,7 +237,7 @@ fn matchers_part(ctx: &Ctx, res: &mut PartResult, max_set: usize) {
     for set in &sets {
         for global in [false, true] {
             if ctx.over_budget() {
-                res.cap_hit = Some("wall budget".into());
+                res.cap_hit = Some("budget (cpu time of the part)".into());
                 res.exhaustive = false;
                 break;
             }
@@ -342,7 +342,7 @@ fn summary_part(ctx: &Ctx, res: &mut PartResult, maxlen: usize) {
                 let mut idx = vec![0usize; len];
                 'seqs: loop {
                     if ctx.over_budget() {
-                        res.cap_hit = Some("wall budget".into());
+                        res.cap_hit = Some("budget (cpu time of the part)".into());
                         res.exhaustive = false;
                         break;
                     }
@@ -443,7 +443,7 @@ fn summary_render(ctx: &Ctx, res: &mut PartResult, maxlen: usize) {
             let mut idx = vec![0usize; len];
             'seqs: loop {
                 if ctx.over_budget() {
-                    res.cap_hit = Some("wall budget".into());
+                    res.cap_hit = Some("budget (cpu time of the part)".into());
                     res.exhaustive = false;
                     break;
                 }
